@@ -21,14 +21,16 @@ use std::collections::HashSet;
 use std::path::Path;
 
 pub const HEADER: &str = "From Coq Require Import List NArith String.\nFrom V Require Import Base.Util Base.Result Model.Registry Corr.RunC13.\nImport ListNotations. Open Scope string_scope.";
-pub const EVALS: [(&str, &str); 9] = [
+pub const EVALS: [(&str, &str); 11] = [
     ("hyp_wf", "hyp_wf"),
+    ("hyp_lockstep", "hyp_lockstep"),
     ("hyp_cyclic", "hyp_cyclic"),
     ("hyp_replayed", "hyp_replayed"),
     ("hyp_full_text", "hyp_full_text"),
     ("corr_desc", "corr_desc"),
     ("corr_fmt", "corr_fmt"),
     ("prop_ws", "prop_ws"),
+    ("prop_fmt_tokens", "prop_fmt_tokens"),
     ("prop_lockstep", "prop_lockstep"),
     ("prop_expanded", "prop_expanded"),
 ];
@@ -723,7 +725,7 @@ pub fn generate(tier: &str, seed: u64, out: &Path, nshards: usize, replay: Optio
             let (v, _) = reggen::build(&prog);
             cx.push_json("fixed", v, &[]);
         }
-        let scale = if thorough { 8 } else { 1 };
+        let scale = if thorough { 20 } else { 1 };
         // random programs (reggen)
         for k in 0..(70 * scale) {
             let cfg = GenCfg { max_defs: if k % 7 == 0 { 10 } else { 5 }, no_type_name_pct: 15, ..GenCfg::default() };
